@@ -304,7 +304,7 @@ func c05Cases(env vk.Env) []vk.Case {
 		}
 	}
 	for _, p := range cmpProtos {
-		parts := env.Pick(2, 20)
+		parts := env.Pick(2, 10)
 		for part := 0; part < parts; part++ {
 			p, part := p, part
 			cs = append(cs, vk.Case{ID: fmt.Sprintf("L1/%s/part%d", p, part), Run: func(t *vk.T) { c05L1(t, p, part, parts, env.Pick(5, 40), env) }})
